@@ -219,3 +219,43 @@ pub fn dep_k_length_heads() {
         None => assert!(rb.is_err(), "len_head: malformed length head accepted"),
     }
 }
+
+/// A8 / C12, integer ranges on the real decoder: `u8` accepts exactly the minimal unsigned heads 0..=255, `i32` exactly the
+/// minimal heads of major type 0 / 1 within the signed 32-bit range, values delivered exactly (nothing wrapped or clamped).
+#[kani::proof]
+#[kani::unwind(8)]
+pub fn dep_k_int_ranges() {
+    let b: [u8; 3] = kani::any();
+    let r: Result<u8, _> = cbor_smol::cbor_deserialize(&b);
+    let a = b[0] & 0x1f;
+    if b[0] >> 5 == 0 && a <= 23 {
+        assert!(r == Ok(a), "u8: direct value");
+    } else if b[0] >> 5 == 0 && a == 24 && b[1] >= 24 {
+        assert!(r == Ok(b[1]), "u8: one-byte value");
+    } else {
+        assert!(r.is_err(), "u8: a value beyond 255, a non-minimal head or another type was accepted");
+    }
+    let c: [u8; 5] = kani::any();
+    let s: Result<i32, _> = cbor_smol::cbor_deserialize(&c);
+    let major = c[0] >> 5;
+    if major <= 1 {
+        match spec_len_head(&c, major) {
+            Some((v, _)) => {
+                if major == 0 {
+                    if v <= i32::MAX as u32 {
+                        assert!(s == Ok(v as i32), "i32: unsigned value altered");
+                    } else {
+                        assert!(s.is_err(), "i32: 2^31 and above must be rejected");
+                    }
+                } else if v <= i32::MAX as u32 {
+                    assert!(s == Ok(-1 - (v as i32)), "i32: negative value altered");
+                } else {
+                    assert!(s.is_err(), "i32: below -2^31 must be rejected");
+                }
+            }
+            None => assert!(s.is_err(), "i32: malformed head accepted"),
+        }
+    } else {
+        assert!(s.is_err(), "i32: another major type accepted");
+    }
+}
